@@ -423,7 +423,7 @@ class SimpleJSONRPCDispatcher(SimpleXMLRPCDispatcher, object):
                 # Try with the registered instance
                 try:
                     # Instance has a custom dispatcher
-                    return getattr(self.instance, "_dispatch")(method, params)
+                    instance_dispatch = getattr(self.instance, "_dispatch")
                 except AttributeError:
                     # Resolve the method name in the instance
                     try:
@@ -433,6 +433,10 @@ class SimpleJSONRPCDispatcher(SimpleXMLRPCDispatcher, object):
                     except AttributeError:
                         # Unknown method
                         pass
+                else:
+                    # An AttributeError raised by the call itself is a
+                    # method error, not a missing dispatcher
+                    return instance_dispatch(method, params)
 
         if func is not None:
             try:
